@@ -198,8 +198,9 @@ def classify_text(m, m2, tmpl, ev, beautify):
                     continue
                 for vname, val in blk.items():
                     v2 = b2[i].vars.get(vname)
-                    same = (v2 == val) or (isinstance(val, (bytes, str)) and isinstance(v2, (bytes, str)))
-                    if not same:
+                    def wire(x):        # str and bytes are two spellings of one wire value
+                        return x.encode("utf8", "surrogatepass") + b"\x00" if isinstance(x, str) else (bytes(x) if isinstance(x, (bytes, bytearray)) else x)
+                    if not (wire(val) == wire(v2)):      # (TupleCoord defines __eq__ only)
                         ser = se.SUBFIELD_SERIALIZERS.get((m.name, bname, vname))
                         tv = tmpl.get_block(bname).get_variable(vname)
                         if beautify and ser is not None and isinstance(val, int) and val < 0 and c12.tyname(tv) in ("S8", "S16", "S32"):
